@@ -2,6 +2,7 @@ import Casm.Proofs.IterModel
 import Casm.Proofs.AssembleLemmas
 import Casm.Proofs.BudgetMono
 import Casm.Proofs.KindInv
+import Casm.Proofs.BudgetPinned
 /-!
 # C09 — the iteration budget decides whether a program assembles, never to what
 
@@ -73,6 +74,23 @@ theorem budget_monotone_after_front_end (opts : Opts) (fs : SrcFiles) (roots : L
     (k : Nat) (d : Defs) (rep : List String) (h : resolveIterativelyN st nodes n defs0 = .ok (k, d, rep)) :
     ∃ k' rep', resolveIterativelyN st nodes m defs0 = .ok (k', d, rep') :=
   budget_monotone st nodes (frontEnd_noClash opts fs roots st nodes defs0 hf) n m hn hnm defs0 k d rep h
+
+/-- **the messages of a successful iteration are those of its confirming pass** (budget at least two):
+    passes that are not the last report nothing -/
+theorem messages_are_the_confirming_pass's (st : Static) (nodes : List AstNode) (max : Nat) (hmax : 2 ≤ max) (hwf : NoClash nodes)
+    (d0 : Defs) (k : Nat) (d : Defs) (rep : List String) (h : resolveIterativelyN st nodes max d0 = .ok (k, d, rep)) :
+    resolveOnce st nodes false true d = .ok (d, true, rep) :=
+  resolveIterativelyN_rep st nodes max hmax hwf d0 k d rep h
+
+/-- **C09, end to end, with the budget of `asm`-block loops pinned**: a program that assembles under a
+    budget of at least two assembles under every larger budget to the same bits, spans and symbols.
+    The hypothesis `innerIter = some k` is exactly what the code lacks (finding F38: `eval_asm` runs its
+    own loop under `max_iterations`); the model with `innerIter = none` reproduces the code. -/
+theorem budget_monotone_end_to_end_with_pinned_inner_budget (opts : Opts) (k : Nat) (hk : opts.innerIter = some k)
+    (fs : SrcFiles) (roots : List (List Char)) (n m : Nat) (hn : 2 ≤ n) (hnm : n ≤ m) (out : AsmOk)
+    (h : assemble (opts.withMax n) fs roots = .ok out) :
+    ∃ out', assemble (opts.withMax m) fs roots = .ok out' ∧ out'.core = out.core :=
+  assemble_budget_monotone_pinned opts k hk fs roots n m hn hnm out h
 
 /-- lowering the budget can only turn success into an error, never into a different state -/
 theorem lower_budget_same_or_error_model (st : Static) (nodes : List AstNode) (hwf : NoClash nodes) (n m : Nat) (hn : 2 ≤ n) (hnm : n ≤ m)
